@@ -148,6 +148,18 @@ world w {
   export exp2;
   export types;
   export exp3;
+  export other:pkg/exp4;
   export run: func(script: list<u32>) -> u32;
+}
+
+// an exported interface that belongs to another package than the world
+package other:pkg {
+  interface exp4 {
+    resource widget {
+      constructor(a: u32);
+      value: func() -> u32;
+    }
+    probe: func(w: borrow<widget>, n: u32) -> u32;
+  }
 }
 "#;
